@@ -354,6 +354,16 @@ def field_operands(body, root, field):
     return out
 
 
+def atomic_ps(ctx, body):
+    """templates.check_atomic with path-sensitive reachability: (what, bb, Err-exits reachable after the mutation).
+    After `Some(items.remove(i))` of an inlined helper the caller's `.with_context(..)?` cannot take its Err arm."""
+    errs = body.err_exits(); out = []
+    for bi, what, kind, call in T.mutation_sites(body, ctx.S, ctx.F):
+        start = body.succ(bi) if kind == 'assign' else ([call.target] if call.target >= 0 else [])
+        out.append((what, bi, sorted(reach_x(body, start) & errs)))
+    return out
+
+
 def value_root(body, op):
     """local a moved value was built in: follow plain single-definition moves backwards"""
     if op['k'] not in ('copy', 'move') or op['pl']['p']: return None
@@ -391,7 +401,9 @@ def one_move(ctx, name, src_field, src_ty, dst_field, dst_ty):
     for what, calls, fld in (('remove', rm, src_field), ('push', pu, dst_field)):
         bbs = {c.bb for c in calls}
         ctx.counters['cfg_paths'] += 1
-        ctx.check(bool(bbs) and bool(oks) and T.must_pass(body, 0, oks, bbs | (nothing_to_move if what == 'push' else set())), R + '/move/%s-on-every-success-path' % what, 'T-MUSTCALL', body.name,
+        # path-sensitive: `None` handed out by an inlined search-and-take helper only reaches the Err side of the caller's `.with_context(..)?`
+        via = bbs | (nothing_to_move if what == 'push' else set())
+        ctx.check(bool(bbs) and bool(oks) and not (reach_x(body, [0], stop=via) & oks), R + '/move/%s-on-every-success-path' % what, 'T-MUSTCALL', body.name,
                   'an Ok-exit is reachable without a %s on self.%s' % (what, fld), body.site())
         twice = sorted(c.bb for c in calls if c.target >= 0 and body.reach([c.target]) & bbs)
         ctx.check(not twice, R + '/move/one-%s' % what, 'T-LOOPMUST', body.name,
@@ -445,7 +457,7 @@ def one_move(ctx, name, src_field, src_ty, dst_field, dst_ty):
             ctx.check(it.has_field('v1::RemovedConstraint', 'constraint'), R + '/move/payload', 'T-CARRY', body.name, 'pushed element is not the removed entry\'s constraint', body.site(c.bb))
     # ---- nothing else written; no error after a mutation
     writes_only(ctx, R + '/only', body, {src_field, dst_field})
-    for what, bi, badexits in T.check_atomic(body, ctx.S, ctx.F):
+    for what, bi, badexits in atomic_ps(ctx, body):
         ctx.check(not badexits, R + '/atomic', 'T-ATOMIC', body.name, 'an Err-exit (bb%s) is reachable after mutation `%s`' % (badexits, what), body.site(bi))
     # the moved element is neither mutably borrowed nor partially assigned on its way
     for c in pu:
@@ -469,7 +481,10 @@ def one_move(ctx, name, src_field, src_ty, dst_field, dst_ty):
 
 
 # what relaxing / restoring means for the feasibility flags is decided by the C05 flag rules
-RELIES_ON = {'C05': ['C05.flags', 'C05.lists', 'C05.rule']}
+RELIES_ON = {'C05': ['C05.flags', 'C05.lists', 'C05.rule'],
+             # the same clause for sample sets: Instance::evaluate_samples computes `feasible` from both lists and `feasible_relaxed` from the
+             # active one only; C05 does not look at evaluate_samples (seed C14-9 skipped the removed constraints there)
+             'C06': ['C06.samples/constraints', 'C06.samples/removed_constraints', 'C06.samples/flags', 'C06.samples/two-lists']}
 
 
 def check(ctx):
